@@ -76,7 +76,7 @@ def plan(tier, seed):
     top = 80 if tier == "quick" else 200
     for lo in range(1, top + 1, step):
         specs.append({"kind": "cover", "n_lo": lo, "n_hi": min(top, lo + step - 1)})
-    ni, nv, nd = (56, 42, 42) if tier == "quick" else (900, 500, 500)
+    ni, nv, nd = (56, 42, 42) if tier == "quick" else (2700, 1500, 1500)
     heavy = []
     for i in range(max(ni, nv, nd)):  # expensive kinds first and interleaved: round-robin sharding then balances the workers
         if i < nv:
